@@ -323,6 +323,7 @@ CASES = {
     'core7_noflow': dict(kind='core', n_pos=7, gap='no_flow'),
     'core7_ductavg': dict(kind='core', n_pos=7, gap='duct_average'),
     'core19_flow': dict(kind='core', n_pos=19, gap='flow'),
+    'core7_flow_three_designs': dict(kind='core', n_pos=7, gap='flow', designs=3),
     # temperature-dependent coolant + parameter-update tolerance: the update schedule of an assembly must not depend on
     # the order in which the assemblies of its type are processed (which a rotation of the loading changes)
     'core7_flow_update_tolerance': dict(kind='core', n_pos=7, gap='flow', coolant='sodium', total_power=6.0e5,
@@ -377,6 +378,11 @@ def _metamorphic(name):
             types = {'a1': dict(duct_mat='fuel_fixed', n_duct=2),
                      'b': dict(n_ring=3, pitch=0.0024, dpin=0.0019, wire=0.0002, duct_mat='fuel_fixed', n_duct=2)}
         names = ['a1' if (i * 7 + 3) % 5 < 3 else 'b' for i in range(n_pos)]
+        if spec.get('designs') == 3:
+            # a coarse bundle in the centre, two finer designs with different corner lengths alternating around it: every
+            # corner of the centre assembly (the split one between hex sides 5 and 0 included) lies between two meshes
+            types['c'] = dict(n_ring=3, pitch=0.0022, dpin=0.0017, wire=0.0002, duct_mat='fuel_fixed')
+            names = ['a1'] + ['b' if i % 2 else 'c' for i in range(1, n_pos)]
         flows = [0.2 + 0.013 * ((i * 5) % 11) for i in range(n_pos)]
         base_pos = [(names[i], spots[i][0], spots[i][1], flows[i]) for i in range(n_pos)]
 
